@@ -1124,6 +1124,8 @@ type w3Record struct {
 type w3Out struct {
 	st        *Stats
 	pool      *Pool
+	keyNames  map[string]string
+	keyDefs   []string
 	ctxNames  map[string]string
 	ctxDefs   []string
 	argNames  map[string]string
@@ -1136,6 +1138,20 @@ type w3Out struct {
 	recs      []w3Record
 	perMethod map[string]int
 	vcount    map[string]int
+}
+
+// keyRef interns a method key (the cases file stays small).
+func (o *w3Out) keyRef(lit string) string {
+	if o.keyNames == nil {
+		o.keyNames = map[string]string{}
+	}
+	if n, ok := o.keyNames[lit]; ok {
+		return n
+	}
+	n := fmt.Sprintf("mk%d", len(o.keyDefs))
+	o.keyNames[lit] = n
+	o.keyDefs = append(o.keyDefs, fmt.Sprintf("Definition %s : mkey := %s.", n, lit))
+	return n
 }
 
 func (o *w3Out) ctxRef(ps []*w3Princ, caller *util.Uint160) string {
@@ -1328,7 +1344,7 @@ func (w *w3World) runCall(o *w3Out, v *w3Variant, call *w3Call, set w3SigSet, re
 	case "alphabet_hi", "alphabet_last":
 		chainName = "ch_" + inst
 	}
-	coqKey := fmt.Sprintf("(%s, %q, %d%%nat)", w3CoqContract[inst], v.M, v.Arity)
+	coqKey := o.keyRef(fmt.Sprintf("(%s, %q, %d%%nat)", w3CoqContract[inst], v.M, v.Arity))
 	o.cases = append(o.cases, fmt.Sprintf("mkCase %s %s %s %s %s", coqKey, o.ctxRef(ps, caller), o.argRef(chainName, call), class, BoolLit(effect)))
 	dk := fmt.Sprintf("%d|%s|%s/%d|%s|%s", w.N, inst, v.M, v.Arity, v.Label, set.Name)
 	if req == nil {
@@ -1956,7 +1972,7 @@ func (w *w3World) redesignation(o *w3Out, table map[string]*w3Req) {
 			}
 			o.st.Evaluations++
 			o.st.OpHistogram[p.inst+"."+p.method]++
-			coqKey := fmt.Sprintf("(%s, %q, %d%%nat)", w3CoqContract[p.inst], p.method, p.arity)
+			coqKey := o.keyRef(fmt.Sprintf("(%s, %q, %d%%nat)", w3CoqContract[p.inst], p.method, p.arity))
 			o.cases = append(o.cases, fmt.Sprintf("mkCase %s %s %s %s %s", coqKey, o.ctxRef([]*w3Princ{p.signer}, nil), o.argRef(chainName, call), class, BoolLit(effect)))
 			rec := w3Record{N: w.N, Inst: p.inst, Method: p.method, Arity: p.arity, Variant: label, Signers: p.signer.Name, Accounts: []string{p.signer.Name},
 				Met: met, Class: class, Fault: r.Fault, Effect: effect, Events: len(r.Events), Args: w3ArgsString(p.args)}
@@ -2090,6 +2106,7 @@ func (o *w3Out) write(w *w3World, path string, nonsafe []string, agree []string,
 	if chIR2 != "" {
 		fmt.Fprintf(&sb, "(* after the re-designation of the NeoFSAlphabet role *)\nDefinition ch_ir2 : chain := %s.\n", chIR2)
 	}
+	sb.WriteString(strings.Join(o.keyDefs, "\n") + "\n")
 	sb.WriteString(strings.Join(o.ctxDefs, "\n") + "\n")
 	sb.WriteString(strings.Join(o.argDefs, "\n") + "\n")
 	sb.WriteString("Definition cases : list case := [\n" + body + "\n].\n")
@@ -2104,8 +2121,7 @@ func (o *w3Out) write(w *w3World, path string, nonsafe []string, agree []string,
 		sb.WriteString("Definition harness_rows : list (mkey * req) := [\n" + strings.Join(agree, ";\n") + "\n].\n")
 		sb.WriteString("Definition M_agree := Eval vm_compute in failures_from 0 (map check_agree harness_rows).\nPrint M_agree.\n")
 		sb.WriteString("(* how many rows have a proved inertness theorem (Props/C03.v C03_models_cover) *)\n")
-		sb.WriteString("From Verif Require Props.C03.\n")
-		sb.WriteString("Definition proved_vs_table := Eval vm_compute in (length C03.proved_rows, length table).\nPrint proved_vs_table.\n")
+		sb.WriteString("Definition proved_vs_table := Eval vm_compute in (length proved_rows, length table).\nPrint proved_vs_table.\n")
 		sb.WriteString("(* closed form of the coverage statement: fails to type-check when a method has no row *)\n")
 		sb.WriteString("Definition covered : forallb (fun k => match required k with Some _ => true | None => false end) nonsafe_methods = true := eq_refl.\n")
 	}
@@ -2265,8 +2281,8 @@ func TestC03(t *testing.T) {
 	st.Extra["safe_methods_invoked"] = safeN
 	st.Extra["safe_methods_faulted_on_default_arguments"] = safeFaults
 	st.Extra["table_rows"] = len(table)
-	// rows with a machine-checked inertness theorem: entries of proved_rows in Props/C03.v
-	if src, err := os.ReadFile(filepath.Join(envOr("VERIF_COQ", "/verif/coq"), "Props", "C03.v")); err == nil {
+	// rows with a machine-checked inertness theorem: entries of proved_rows in Model/Witness.v
+	if src, err := os.ReadFile(filepath.Join(envOr("VERIF_COQ", "/verif/coq"), "Model", "Witness.v")); err == nil {
 		txt := string(src)
 		if i := strings.Index(txt, "Definition proved_rows"); i >= 0 {
 			if j := strings.Index(txt[i:], "]."); j >= 0 {
